@@ -130,7 +130,8 @@ def matches_known(entry, prop, scn, viol):
     oracles_ = entry["oracle"] if isinstance(entry["oracle"], list) else [entry["oracle"]]
     if entry.get("status") != "open" or entry["property"] != prop.pid or viol["oracle"] not in oracles_:
         return False
-    facts = prop.facts(scn, viol)
+    facts = dict(prop.facts(scn, viol))
+    facts.update(viol.get("facts") or {})
     for k, want in entry.get("when", {}).items():
         if k.endswith("__le") or k.endswith("__ge"):
             got = facts.get(k[:-4])
